@@ -102,6 +102,57 @@ def make_variants(text):
     return out
 
 
+class _G:
+    """what the runner needs from a Gen, restorable from the extraction cache"""
+    pass
+
+
+def _inputs_hash(repo, verif):
+    h = hashlib.sha256()
+    for base in (os.path.join(repo, "src"), os.path.join(verif, "vx"), os.path.join(verif, "shim"), os.path.join(verif, "contracts")):
+        for root, dirs, files in sorted(os.walk(base)):
+            dirs[:] = sorted(d for d in dirs if d != "__pycache__")
+            for f in sorted(files):
+                if f.endswith((".rs", ".py")):
+                    h.update(f.encode()); h.update(open(os.path.join(root, f), "rb").read())
+    return h.hexdigest()[:24]
+
+
+import threading
+_GEN_LOCK = threading.Lock()
+
+
+def cached_gen(repo, features, verif, assume, reasons):
+    """extraction is deterministic in (/repo/src, vx, shim, contracts, features, assumed set): cache its output"""
+    with _GEN_LOCK:
+        return _cached_gen(repo, features, verif, assume, reasons)
+
+
+def _cached_gen(repo, features, verif, assume, reasons):
+    key = hashlib.sha256(("%s|%s|%s" % (_inputs_hash(repo, verif), fs_name(features), ",".join(sorted(assume)))).encode()).hexdigest()[:24]
+    path = os.path.join(verif, "build", "cache", "gen_%s.json" % key)
+    if os.path.exists(path):
+        try:
+            d = json.load(open(path))
+            g = _G()
+            g.assume = set(d["assume"]); g.assume_reasons = d["assume_reasons"]; g.report = d["report"]
+            g.fn_keys_with_body = set(d["fn_keys_with_body"])
+            return g, d["text"]
+        except (ValueError, KeyError):
+            pass
+    g = Gen(repo, features, verif)
+    g.assume = set(assume)
+    g.assume_reasons = dict(reasons)
+    text = g.assemble()
+    os.makedirs(os.path.dirname(path), exist_ok=True)
+    import uuid
+    tmp = path + ".%s.tmp" % uuid.uuid4().hex
+    json.dump({"text": text, "assume": sorted(g.assume), "assume_reasons": g.assume_reasons, "report": g.report,
+               "fn_keys_with_body": sorted(g.fn_keys_with_body)}, open(tmp, "w"))
+    os.replace(tmp, path)
+    return g, text
+
+
 def verify_feature_set(repo, verif, features, use_cache=True, vacuity=True, extra=(), tag=""):
     """returns a dict: status in {ok, fail, undecided}, failures, stats ...
     A function that is outside the extraction rules, or whose extracted text Verus rejects, is retried with its contract
@@ -119,10 +170,7 @@ def verify_feature_set(repo, verif, features, use_cache=True, vacuity=True, extr
             res = {"features": sorted(features), "name": name}
             t0 = time.time()
             try:
-                g = Gen(repo, features, verif)
-                g.assume = set(assume)
-                g.assume_reasons = dict(reasons)
-                text = g.assemble()
+                g, text = cached_gen(repo, features, verif, assume, reasons)
             except (Unsupported, LexError) as e:
                 res.update(status="undecided", reason="extraction: %s" % e, failures=[], labels={}, wall=time.time() - t0)
                 return res
@@ -228,7 +276,8 @@ def _verify_locked(g, text, res, key, cache, use_cache, vacuity, extra, tag, out
         res["status"] = "ok"
     res["wall"] = time.time() - t0
     os.makedirs(os.path.dirname(cache), exist_ok=True)
-    tmpc = cache + ".%d.tmp" % os.getpid()
+    import uuid
+    tmpc = cache + ".%s.tmp" % uuid.uuid4().hex
     json.dump(res, open(tmpc, "w"))
     os.replace(tmpc, cache)
     return res
